@@ -330,3 +330,42 @@ Section ValueSemanticsFast.
     exists r, r'. split; [exact S1|]. split; [exact T1|]. split; [exact S2|]. split; [exact T2|]. rewrite S3, T3. apply pprod_same. exact S.
   Qed.
 End ValueSemanticsFast.
+
+(* ------------------------------------------------------------------ is_x *)
+Section IsX.
+  Context {F K : Type} (o : fops F) (fk : fieldK K) (ok : F -> Prop) (den : F -> K).
+  Hypothesis H : field_ok o fk ok den.
+  Local Notation D := (map den).
+  Theorem is_x_spec l : Forall ok l -> exists b, poly_is_x o l = Some b /\ (b = true <-> peq fk (D l) (pXn fk 1)).
+  Proof.
+    intros Hl. unfold poly_is_x. rewrite (degree_pdeg o fk ok den H l Hl).
+    assert (X2 : forall i, coeff fk (pXn fk 1) (S (S i)) = k0 fk) by (intros i; unfold pXn; cbn [repeat app]; rewrite !coeff_cons_S; apply coeff_nil).
+    assert (DX : pdeg fk (pXn fk 1) = 1).
+    { unfold pdeg, pXn. cbn [repeat app pnorm]. destruct (keq_dec fk (k1 fk) (k0 fk)) as [E|E]; [exfalso; exact (k1_neq_0 fk E)|reflexivity]. }
+    destruct (pdeg fk (D l) =? 1) eqn:E.
+    - apply Z.eqb_eq in E. pose proof (pdeg_le_length fk (D l)) as B. rewrite map_length in B.
+      destruct (idx_lookup l 0 ltac:(unfold zlen; lia)) as [c0 [A1 A2]]. destruct (idx_lookup l 1 ltac:(unfold zlen; lia)) as [c1 [B1 B2]].
+      rewrite A1. pose proof (nth_error_ok ok l _ c0 Hl A2) as Hc0. pose proof (nth_error_ok ok l _ c1 Hl B2) as Hc1.
+      assert (C0 : coeff fk (D l) 0 = den c0) by (rewrite coeff_D; change (Z.to_nat 0) with O in A2; rewrite A2; reflexivity).
+      assert (C1 : coeff fk (D l) 1 = den c1) by (rewrite coeff_D; change (Z.to_nat 1) with 1%nat in B2; rewrite B2; reflexivity).
+      destruct (fis_zero o c0) eqn:Z0.
+      + rewrite B1. eexists. split; [reflexivity|]. rewrite (fo_eqb _ _ _ _ H c1 (fone o) Hc1 (ok1 o fk ok den H)), (den1 o fk ok den H).
+        apply (is0_iff o fk ok den H c0 Hc0) in Z0. split.
+        * intros E1. apply peq_intro. intros [|[|i]].
+          -- rewrite C0, Z0. reflexivity.
+          -- rewrite C1, E1. reflexivity.
+          -- rewrite X2. apply coeff_above_pdeg. lia.
+        * intros P. rewrite <- C1, (peq_elim fk _ _ P). reflexivity.
+      + exists false. split; [reflexivity|]. split; [discriminate|]. intros P. exfalso.
+        apply (is0_false_iff o fk ok den H c0 Hc0) in Z0. apply Z0. rewrite <- C0, (peq_elim fk _ _ P). reflexivity.
+    - exists false. split; [reflexivity|]. split; [discriminate|]. intros P. apply Z.eqb_neq in E. exfalso. apply E.
+      rewrite (pdeg_peq fk _ _ P). exact DX.
+  Qed.
+  Theorem vs_is_x a a' : same fk ok den a a' -> poly_is_x o a = poly_is_x o a' /\ exists b, poly_is_x o a = Some b.
+  Proof.
+    intros [Ha [Ha' E]]. destruct (is_x_spec a Ha) as [b [B1 B2]]. destruct (is_x_spec a' Ha') as [b' [B1' B2']].
+    split; [|exists b; exact B1]. rewrite B1, B1'. f_equal. destruct b, b'; try reflexivity; exfalso.
+    - assert (T : true = true) by reflexivity. apply B2 in T. rewrite E in T. apply B2' in T. discriminate.
+    - assert (T : true = true) by reflexivity. apply B2' in T. rewrite <- E in T. apply B2 in T. discriminate.
+  Qed.
+End IsX.
